@@ -2,7 +2,7 @@ SPECIFICATION Spec
 INVARIANTS Emit
 CHECK_DEADLOCK FALSE
 CONSTANTS
-  FaultKinds = {"4xx", "5xx", "timeout", "reset"}
+  FaultKinds = {"4xx", "5xx", "timeout", "reset", "stall"}
   Record = TRUE
   Protocol = "repaired"
   Mutant = ""
